@@ -19,7 +19,7 @@ CHECKS = {
          "DESIGN.md §4 C20"),
  "C01": ("A-sequential-explorer",
          "explicit-state BFS to a fixpoint of canonical processor states + exhaustive deviation-bounded enumeration of event strings on the real MotionProcessor (real detector, ring, window); trace oracle on the recorder sink",
-         "Fixpoint: every history of any length over {motion frame, still frame} with <=2 deviations (bad frame, camera reset, disk-check/creation refusal, closed window) for every configuration of the recorder lattice (99 quick + 4 fps-2/3 configurations / 297 thorough, ring capacities 1..9), all configurations converge. Trees (key-free second line): every motion bit-string to depth 12 (15) and every string to depth 10 (12) with <=2 deviations, both entry points. The sink trace must be consecutive ids, globally increasing, and tile after a near re-trigger.",
+         "Fixpoint: every history of any length over {motion frame, still frame} with <=2 deviations (bad frame, camera reset, disk-check/creation refusal, closed window) for every configuration of the recorder lattice (99 quick + 4 fps-2/3 configurations / 297 thorough, ring capacities 1..9), all configurations converge. Trees (key-free second line): every motion bit-string to depth 12 (15) and every string to depth 10 (12) with <=2 deviations, both entry points, plus every string to that depth with one event during which the sink's StopRecording reports an error (on a still, motion or bad frame, or a reset). The sink trace must be consecutive ids, globally increasing, and tile after a near re-trigger.",
          "Streams longer than the depth bound and configurations outside the lattice are not enumerated (the code depends on them only through cap/minF/maxF). Frame identity rides in Status.FrameCount.",
          "DESIGN.md §4 C01"),
  "C02": ("A-sequential-explorer",
@@ -29,7 +29,7 @@ CHECKS = {
          "DESIGN.md §4 C02"),
  "C03": ("A-sequential-explorer",
          "explicit-state BFS to a fixpoint + exhaustive enumeration of motion bit-strings over a min/max-length lattice on the real MotionProcessor; per-recording stop-position oracle",
-         "Every motion bit-string of length min(15 (19 thorough), cap+2*maxF+3) for every configuration of a lattice built around the limits (min-secs 0..4, max-secs up to min+4, fps 1..3, preview 0/1, trigger 0..2), so motion at every offset incl. the last frame before the limit and the frame at the cap; stop position must equal the first offset p >= min(q+minF-1, maxF).",
+         "Every motion bit-string of length min(15 (19 thorough), cap+2*maxF+3) for every configuration of a lattice built around the limits (min-secs 0..4, max-secs up to min+4, fps 1..3, preview 0/1, trigger 0..2), so motion at every offset incl. the last frame before the limit and the frame at the cap; stop position must equal the first offset p >= min(q+minF-1, maxF). Plus the same lattice and the general recorder lattice with <=1 deviation, incl. a StopRecording of an earlier recording that reports an error (the next recording must still have the stated length).",
          "Configurations whose two-recording horizon exceeds the depth cap are covered to the cap only (count reported in evidence).",
          "DESIGN.md §4 C03"),
  "C04": ("A-sequential-explorer",
